@@ -215,6 +215,7 @@ def eval_coq_terms(imports: List[str], terms: List[Tuple[int, str]], workdir: st
     """terms: (case id, Coq term) -> evaluates each with vm_compute, returns id -> python value."""
     results: Dict[int, Any] = {}
     errors: List[str] = []
+    shard = max(4, min(shard, -(-len(terms) // (2 * NPROC))))
     shards = [terms[i:i + shard] for i in range(0, len(terms), shard)]
     files = []
     for si, sh_terms in enumerate(shards):
